@@ -38,6 +38,8 @@ def graph(task):
     out = {'evals': 0, 'violations': [], 'outcomes': {}, 'nontrivial': 0}
     tags = wsweep.cls(wsweep.tags_of(series))
     first_fail = series.first_fail if raw else next((i for i, p in enumerate(series) if not p.ok()), None)
+    # a hand-written case may ask for default verbosity (the failure report runs, and what it tries out must not show in the outcome)
+    qopt = [] if (raw and getattr(series, 'loud', False)) else ['-q']
 
     def wit(extra):
         return wsweep.witness(m0, series, {'quiet': True, 'backup': 'never', 'goal': []}, extra, names)
@@ -45,7 +47,7 @@ def graph(task):
     ref = {}
     for g in range(n + 1):
         ws.make_ws(root, files, patches, lines)
-        o = ws.run_rq(root, [str(g), '-q', '--backup', 'never'], threads=1)
+        o = ws.run_rq(root, [str(g)] + qopt + ['--backup', 'never'], threads=1)
         out['evals'] += 1
         if o.cls not in ('0', '1'):
             out['violations'].append((tags, o.cls, wit({'args': [str(g), '-q'], 'observed': o.cls, 'stderr': common.b2s(o.err[-300:])})))
@@ -77,13 +79,13 @@ def graph(task):
                 t = min(t, n)
                 materialise(root, files, patches, lines, snap)
                 before = ws.snapshot(root, meta=True)
-                o = ws.run_rq(root, args + ['-q', '--backup', 'never'], threads=threads, trace=tr)
+                o = ws.run_rq(root, args + qopt + ['--backup', 'never'], threads=threads, trace=tr)
                 after_meta = ws.snapshot(root, meta=True)
                 after = {p: v[:3] if v[0] == 'F' else v[:2] for p, v in after_meta.items()}
                 out['evals'] += 1
                 transitions += 1
                 h2 = hist + [{'args': args, 'threads': threads}]
-                w = lambda extra: wit(dict({'before': hist, 'args': args + ['-q', '--backup', 'never'], 'threads': threads}, **extra))
+                w = lambda extra: wit(dict({'before': hist, 'args': args + qopt + ['--backup', 'never'], 'threads': threads}, **extra))
                 if o.cls not in ('0', '1'):
                     out['violations'].append((tags, o.cls, w({'observed': o.cls, 'stderr': common.b2s(o.err[-300:])})))
                     continue
